@@ -125,7 +125,7 @@ fn default_runs(prop: &str, thorough: bool) -> u64 {
 fn make_ctx() -> Ctx {
     let verif_dir = PathBuf::from(std::env::var("WSIM_VERIF_DIR").unwrap_or_else(|_| "/verif".to_string()));
     let known = known::load(&verif_dir.join("known_findings.json"));
-    let post_cancel_bound = std::env::var("WSIM_POST_CANCEL_BOUND").ok().and_then(|s| s.parse().ok()).unwrap_or(250_000);
+    let post_cancel_bound = std::env::var("WSIM_POST_CANCEL_BOUND").ok().and_then(|s| s.parse().ok()).unwrap_or(40_000);
     Ctx { tb: refchess::tb::Tb::build(), known, verif_dir, post_cancel_bound }
 }
 
